@@ -64,7 +64,68 @@ pub struct JudgeOpts {
 pub fn judge_input(ctx: &mut Ctx, class: &str, bytes: &[u8], opts: JudgeOpts) -> Judged {
     let j = judge_input_inner(ctx, class, bytes, opts);
     ctx.trace_end();
+    if !cfg!(miri) && !j.outs.is_empty() {
+        after_input(ctx, class, bytes, &j);
+    }
     j
+}
+
+/// History independence of the decoder: (1) after an input that some key type refused, the canary record is
+/// decoded again and must still be accepted; (2) for inputs that some key type accepted, a second pass in the
+/// REVERSE key-type order must give every key type the verdict it gave in the first pass.
+fn after_input(ctx: &mut Ctx, class: &str, bytes: &[u8], j: &Judged) {
+    let byte_level = matches!(class, "bit-flip" | "truncation" | "byte-deletion" | "byte-edit" | "byte-insertion" | "header-bit-flip" | "unstructured");
+    ctx.canary_tick += 1;
+    let any_reject = j.outs.iter().any(|o| o.2.res.is_err());
+    let any_accept = j.outs.iter().any(|o| o.2.res.is_ok());
+    if any_reject && !class.starts_with("valid") && !class.starts_with("probe") && (!byte_level || ctx.canary_tick % 8 == 0) {
+        if let Some(c) = ctx.canary.clone() {
+            if c.as_slice() != bytes {
+                ctx.trace_case(|| json!({"kind": "input", "class": "canary-after", "hex": hex(&c), "after": hex(bytes)}));
+                for kt in dec::kts() {
+                    if !matches!(ref_decode(&c, kt), RefOut::Accept(_)) {
+                        continue;
+                    }
+                    let o = dec::decode_kt(kt, &c);
+                    ctx.count("evaluations");
+                    ctx.count("canary-redecodes");
+                    if o.res.is_err() {
+                        for prop in ["C02", "C13"] {
+                            ctx.violate(prop, "valid-record-rejected-after-another-input", &format!("after-{class}/{}", kt.name()), || {
+                                format!("{}: a valid record is rejected ({:?}) right after an input of class {class} was decoded on the thread", kt.name(), o.res.as_ref().err())
+                            }, || json!({"kind": "input-pair", "first": hex(bytes), "second": hex(&c), "kt": kt.name(), "class": class}));
+                        }
+                    }
+                }
+                ctx.trace_end();
+            }
+        }
+    }
+    if any_accept && (!byte_level) {
+        ctx.trace_case(|| json!({"kind": "input", "class": "reverse-pass", "hex": hex(bytes)}));
+        let mut kts = dec::kts();
+        kts.reverse();
+        for kt in kts {
+            let first = match j.outs.iter().find(|o| o.0 == kt) {
+                Some(f) => f.2.res.is_ok(),
+                None => continue,
+            };
+            let o = dec::decode_kt(kt, bytes);
+            ctx.count("evaluations");
+            ctx.count("reverse-pass-decodes");
+            if let Some(p) = &o.panic {
+                ctx.violate("C03", "panic", &format!("decode/{}", panic_sig(p)), || format!("decode::<{}> panicked in the second pass: {p}", kt.name()), || replay_input(class, "decode", kt, bytes));
+            }
+            if (o.res.is_ok() || o.panic.is_some()) != first {
+                for prop in ["C02", "C13", "C01"] {
+                    ctx.violate(prop, "verdict-depends-on-what-was-decoded-before", &format!("{class}/{}", kt.name()), || {
+                        format!("{}: the same bytes were {} in the first pass and {} when decoded after the other key types", kt.name(), if first { "accepted" } else { "rejected" }, if o.res.is_ok() { "accepted" } else { "rejected" })
+                    }, || json!({"kind": "input", "class": class, "entry": "decode", "kt": kt.name(), "hex": hex(bytes), "note": "reverse key-type order"}));
+                }
+            }
+        }
+        ctx.trace_end();
+    }
 }
 
 fn judge_input_inner(ctx: &mut Ctx, class: &str, bytes: &[u8], opts: JudgeOpts) -> Judged {
